@@ -28,6 +28,7 @@ type Args struct {
 	PID, PW, PW2   string
 	NoPW2          bool
 	RM             bool
+	RMVal          string // literal value of the rm parameter when it is present but not "true"
 	Redir          string
 	Token          string
 	Code, RCode    string
@@ -481,6 +482,8 @@ func (m *M) spec(route string, a Args) (routeSpec, url.Values, map[string]string
 		form["password"] = a.PW
 		if a.RM {
 			form["rm"] = "true"
+		} else if a.RMVal != "" {
+			form["rm"] = a.RMVal
 		}
 	}
 	switch route {
@@ -526,6 +529,8 @@ func (m *M) spec(route string, a Args) (routeSpec, url.Values, map[string]string
 	case "ostart":
 		if a.RM {
 			q.Set("rm", "true")
+		} else if a.RMVal != "" {
+			q.Set("rm", a.RMVal)
 		}
 		return routeSpec{"GET", "/auth/oauth2/" + a.Prov, ""}, q, nil
 	case "oend":
@@ -746,6 +751,8 @@ func (m *M) HTTP(b, route string, a Args, fault *world.Fault) *world.Result {
 	add("pw", a.PW)
 	if a.RM {
 		kv = append(kv, "rm=1")
+	} else if a.RMVal != "" {
+		kv = append(kv, "rmo=1")
 	}
 	add("redir", a.Redir)
 	if route == "confirm" || route == "recend" {
